@@ -531,7 +531,11 @@ func TestC02(t *testing.T) {
 	runCheck(t, "C02", "model_checking", func(r *mc.Report, t *testing.T) {
 		depth, dev := 3, 0
 		if thorough() {
-			depth, dev = 4, 1
+			// deeper histories without scheduling deviations, then (below) depth 3 with one deviation
+			depth, dev = 4, 0
+			defer r.Explore(mc.Config{Name: "histories-d3-dev1", Serial: true, SplitDepth: 2, DevBound: 1, StopAfterViolations: 40,
+				Rule: "the same with all histories of 3 operations and one scheduling deviation per execution (another delivery order at one step, or the next operation issued before quiescence)"},
+				c02Body(t, 3, 1))
 		}
 		r.Explore(mc.Config{Name: fmt.Sprintf("histories-d%d-dev%d", depth, dev), Serial: true, SplitDepth: 2, DevBound: dev, StopAfterViolations: 40,
 			Rule: fmt.Sprintf("two real stores linked by the real SyncClient (period 1 s) after an initial catch-up; all histories of %d operations over 24 (point with an existing / a new identity, edge point on a shared node and on the second placement of a mirrored node on a shared node at either side, node creation at either side, delete / undelete at either side, sync disabled = clean outage / re-enabled, link lost abruptly / restored, upstream process restarted, upstream stopped with its clients reconnecting before its store answers / upstream store back, a sync period passes), %d scheduling deviations; then the link is brought up, 5 periods pass, and the device subtrees (deleted nodes included, every point with all fields) must be identical and hold the newest accepted write per identity", depth, dev)},
@@ -544,4 +548,6 @@ func TestC02(t *testing.T) {
 func init() {
 	bodies["C02/histories-d3-dev0"] = func(t *testing.T) mc.Body { return c02Body(t, 3, 0) }
 	bodies["C02/histories-d4-dev1"] = func(t *testing.T) mc.Body { return c02Body(t, 4, 1) }
+	bodies["C02/histories-d4-dev0"] = func(t *testing.T) mc.Body { return c02Body(t, 4, 0) }
+	bodies["C02/histories-d3-dev1"] = func(t *testing.T) mc.Body { return c02Body(t, 3, 1) }
 }
